@@ -16,6 +16,9 @@ type GetSignaturesForAddressParams struct {
 }
 
 func parseGetSignaturesForAddressParams(raw *json.RawMessage) (*GetSignaturesForAddressParams, error) {
+	if raw == nil {
+		return nil, fmt.Errorf("missing params")
+	}
 	var params []any
 	if err := fasterJson.Unmarshal(*raw, &params); err != nil {
 		return nil, fmt.Errorf("failed to unmarshal params: %w", err)
